@@ -442,7 +442,7 @@ pub fn c14(cx: &Cx) -> i32 {
         if let Some(f) = ix.get_fn(&q) { rep.check(!sig_text(&f).contains("&mutItem"), "MR-mutation-confinement", &q, "shared-ref", "a core takes the item by mutable reference", &site(&f), json!({})); }
     }
     // ---- ES-entry-emit: `build` emits the item first, then the generated tokens or the compile error
-    let is_cerr = |v: &Val| v.any(&|y| matches!(y, Val::Opaque { what, deps } if what == ".to_compile_error" && deps.iter().any(|d| d.any(&|z| matches!(z, Val::Opaque { what, .. } if what == "err-of") || matches!(z, Val::Sym { path, .. } if path.ends_with(".Err") || path.ends_with(".err"))))));
+    let is_cerr = |v: &Val| v.any(&|y| matches!(y, Val::Opaque { what, deps } if (what == ".to_compile_error" || what == ".into_compile_error") && deps.iter().any(|d| d.any(&|z| matches!(z, Val::Opaque { what, .. } if what == "err-of") || matches!(z, Val::Sym { path, .. } if path.ends_with(".Err") || path.ends_with(".err"))))));
     if let Some(b) = find_fn(ix, &|f| f.self_ty.is_none() && f.attrs.is_empty() && f.sig.inputs.len() == 2 && f.sig.inputs.iter().all(|i| matches!(i, syn::FnArg::Typed(t) if crate::index::ty_str(&t.ty) == "TokenStream")) && sig_text(f).ends_with("->Result<TokenStream>")) {
         let mut ev = mk_ev(ix);
         let mut builders = Vec::new();
